@@ -81,10 +81,10 @@ def seqs(draw, depth=0):
         if c == 'write':
             items.append({'do': 'write', 'spec': draw(hc_spec())})
         elif c == 'block':
-            items.append({'do': 'block', 'exit': draw(st.sampled_from(['normal', 'normal', 'exception'])),
+            items.append({'do': 'block', 'exit': draw(st.sampled_from(['normal', 'normal', 'exception', 'base-exception'])),
                           'body': draw(seqs(depth + 1))})
         else:
-            items.append({'do': 'decorated', 'spec': draw(hc_spec()), 'exit': draw(st.sampled_from(['normal', 'exception'])),
+            items.append({'do': 'decorated', 'spec': draw(hc_spec()), 'exit': draw(st.sampled_from(['normal', 'exception', 'base-exception'])),
                           # a decorated function may call further decorated functions / open blocks
                           'body': draw(seqs(depth + 1)) if depth < 2 and draw(st.booleans()) else []})
     return items
@@ -158,6 +158,10 @@ def apply_breach(spec, b):
             if rows < 3:
                 raise IndexError('too few rows for a non-uniform index')
             vals = np.cumsum(np.arange(rows) % 3 + 1).astype('<f8')
+            if sel % 3 == 2 and rows >= 4:
+                # regular steps with a hole: a NaN among otherwise evenly spaced values is not a uniform index either
+                vals = (100.0 + 0.5 * np.arange(rows)).astype('<f8')
+                vals[1 + sel % (rows - 2)] = np.nan
             f['attrs']['index_type'] = {'v': 'BOREHOLE-DEPTH', 'r': 'kw'}
         else:
             vals = (np.arange(rows) * 0.5).astype('<f8')
@@ -259,6 +263,10 @@ def check_hc_file(buf, spec):
 
 class Boom(Exception):
     pass
+
+
+class Stop(BaseException):
+    """Leaves a block the way GeneratorExit / KeyboardInterrupt / SystemExit do: not an Exception."""
 
 
 class C17(Property):
@@ -437,7 +445,11 @@ class C17(Property):
                             if it['exit'] == 'exception':
                                 stats['exc_exit'] = True
                                 raise Boom()
-                    except Boom:
+                            if it['exit'] == 'base-exception':
+                                stats['exc_exit'] = True
+                                labels.add('exit-by-base-exception')
+                                raise Stop()
+                    except (Boom, Stop):
                         pass
                     if flag() != before:
                         viol.append(Violation(f"flag-not-restored/block-{it['exit']}/depth{min(depth, 1)}",
@@ -457,9 +469,13 @@ class C17(Property):
                         if it['exit'] == 'exception':
                             stats['exc_exit'] = True
                             raise Boom()
+                        if it['exit'] == 'base-exception':
+                            stats['exc_exit'] = True
+                            labels.add('exit-by-base-exception')
+                            raise Stop()
                     try:
                         decorated()
-                    except Boom:
+                    except (Boom, Stop):
                         pass
                     if flag() != before:
                         viol.append(Violation(f"flag-not-restored/decorator-{it['exit']}", f"before {before}, after {flag()}"))
